@@ -9,7 +9,7 @@ WT=/tmp/val_$TAG
 OUT=/verif/seeded/$TAG
 rm -rf "$WT"; git -C /repo worktree prune
 git -C /repo worktree add -q --detach "$WT" HEAD || exit 3
-mkdir -p "$OUT"
+mkdir -p "$OUT"; rm -rf "$OUT/evidence_with_change" "$OUT/replays_with_change"
 cd "$WT"
 /venv/bin/python "$SRC/demo.py" > "$OUT/demo_before.txt" 2>&1; B=$?
 git apply "$SRC/patch.diff" || { echo "$TAG: patch does not apply"; exit 3; }
@@ -17,8 +17,14 @@ git apply "$SRC/patch.diff" || { echo "$TAG: patch does not apply"; exit 3; }
 T=$(/venv/bin/python -m pytest -q -p no:cacheprovider --timeout=900 matched_markets/tests 2>&1 | tail -1)
 cp "$SRC/patch.diff" "$SRC/demo.py" "$OUT/"
 cd /verif
-MMVERIF_REPO="$WT" .venv/bin/python -m mmverif.check "$ID" --tier quick > "$OUT/check_output.txt" 2>&1; C=$?
+MMVERIF_EVIDENCE_DIR="$OUT/evidence_with_change" MMVERIF_REPLAY_DIR="$OUT/replays_with_change" MMVERIF_REPO="$WT" .venv/bin/python -m mmverif.check "$ID" --tier quick > "$OUT/check_output.txt" 2>&1; C=$?
 git -C /repo worktree remove --force "$WT"
+# keep only the replay files the VIOLATION lines name
+if [ -d "$OUT/replays_with_change" ]; then
+  find "$OUT/replays_with_change" -type f | while read f; do
+    grep -q -F "$f" "$OUT/check_output.txt" || rm -f "$f"
+  done
+fi
 echo "$TAG: demo_before=$B demo_after=$A tests='$T' check_exit=$C"
 python3 - "$ID" "$TAG" "$SRC" "$B" "$A" "$T" "$C" <<'PY'
 import json, sys, os
